@@ -232,11 +232,15 @@ def do_chunk(args):
     return acc
 
 
-def memcheck_sample(run_, seed, n):
-    """valgrind memcheck over the -O2 build for a sample (thorough tier)."""
-    exe = rt.TREE.program("opt", "vw.c")
+def memcheck_sample(run_, seed, n, exe=None, only=None):
+    """valgrind memcheck over the -O2 build for a sample (thorough tier); with exe/only: another build, the named
+    methods only (the C library's own allocator places blocks differently from ASan's: 16-byte alignment)"""
+    exe = exe or rt.TREE.program("opt", "vw.c")
     cases, _ = crypt_cases(seed + 991, n, "memcheck")
-    cases += gensalt_cases(seed + 991, n // 3, "memcheck")
+    if only:
+        cases = [c for c in cases if c["m"] in only and c["lab"] in ("valid", "saltlen0") or c["lab"].startswith("saltlen")][:n // 8]
+    else:
+        cases += gensalt_cases(seed + 991, n // 3, "memcheck")
     lines = []
     for c in cases:
         if c["k"] == "crypt" and (c["size"] != "=" or c["entry"] == "crypt_ra"):
@@ -433,14 +437,36 @@ def run(tier):
         cs, sk = crypt_cases(run_.seed + 17, na // 5, "ownbz-asan")
         cs += gensalt_cases(run_.seed + 17, ng // 10, "ownbz-asan")
         work += [("ownbz-asan", ch) for ch in pool.chunks(cs, 50)]
+    # a target without mmap (the compiler does not predefine __unix__: MinGW-like): the yescrypt family takes its
+    # region from malloc and aligns inside the block
+    name, en, nm_exe, err, _ = C19.build_config(("c04-no-mmap-asan", list(gen.METHODS), None, build.FLAVOURS["asan"][1] + " -U__unix__"))
+    if nm_exe is None:
+        run_.acc.inconc("ASan build without mmap failed: " + err[-300:])
+    else:
+        rt.PATHS["vw-nommap-asan"] = nm_exe
+        cs, sk = crypt_cases(run_.seed + 23, na // 4, "nommap-asan")
+        cs = [c for c in cs if c["m"] in ("yescrypt", "gost_yescrypt", "scrypt")] + cs[:200]
+        work += [("nommap-asan", ch) for ch in pool.chunks(cs, 50)]
     try:
         for acc in pool.pmap(do_chunk, work):
             run_.merge(acc)
     finally:
         if own_exe:
             shutil.rmtree(os.path.dirname(own_exe), ignore_errors=True)
+        if nm_exe:
+            shutil.rmtree(os.path.dirname(nm_exe), ignore_errors=True)
     if tier == "thorough":
         memcheck_sample(run_, run_.seed, 3000)
+    # the malloc-backed region code (no mmap) under memcheck: glibc's blocks are 16-byte aligned, so the 64-byte
+    # alignment inside the block leaves a slack that ASan's 64-byte-aligned large blocks never show
+    name, en, nm2, err, _ = C19.build_config(("c04-no-mmap-opt", list(gen.METHODS), None, "-O2 -g -U__unix__"))
+    if nm2 is None:
+        run_.acc.inconc("-O2 build without mmap failed: " + err[-300:])
+    else:
+        try:
+            memcheck_sample(run_, run_.seed + 3, 800 if tier == "quick" else 6000, nm2, ("yescrypt", "gost_yescrypt", "scrypt"))
+        finally:
+            shutil.rmtree(os.path.dirname(nm2), ignore_errors=True)
     fuzz_stage(run_, tier)
     a = run_.acc
     cov = {
